@@ -41,7 +41,8 @@ type raceOptTarget struct {
 var (
 	raceOptA  = gotype.Unfolders(func(to *raceA, s string) error { to.S = "A:" + s; return nil })
 	raceOptB  = gotype.Unfolders(func(to *raceB, s string) error { to.S = "B:" + s; return nil })
-	raceFoldO = gotype.Folders(func(v *raceA, vis structform.ExtVisitor) error { return vis.OnString("F:" + v.S) })
+	raceFoldO  = gotype.Folders(func(v *raceA, vis structform.ExtVisitor) error { return vis.OnString("F:" + v.S) })
+	raceFoldO2 = gotype.Folders(func(v *raceB, vis structform.ExtVisitor) error { return vis.OnString("G:" + v.S) })
 )
 
 // raceOptions: instances configured through options and setters, on the goroutine's own instances
@@ -81,16 +82,23 @@ func raceOptions(w int) []string {
 		vs.SetEscapeHTML(html)
 		vs.SetIgnoreInvalidFloat(w%2 == 1)
 		vs.SetExplicitRadixPoint(w%4 < 2)
-		it, err := gotype.NewIterator(vs, raceFoldO)
+		var it *gotype.Iterator
+		var err error
+		if html {
+			it, err = gotype.NewIterator(vs, raceFoldO, raceFoldO2)
+		} else {
+			it, err = gotype.NewIterator(vs, raceFoldO)
+		}
 		res := ""
 		if err != nil {
 			res = "SETUPERR"
 		} else if err := it.Fold(struct {
 			T *raceA
 			V raceA
+			W raceB
 			S string
 			F float64
-		}{&raceA{"<p>"}, raceA{"&q"}, "a<b>&c", 2}); err != nil {
+		}{&raceA{"<p>"}, raceA{"&q"}, raceB{"w"}, "a<b>&c", 2}); err != nil {
 			res = "ERR"
 		} else {
 			res = buf.String()
